@@ -18,6 +18,7 @@ static struct cmd cmds[] = {
   {"c07", cmd_c07},
   {"c06", cmd_c06},
   {"c08", cmd_c08},
+  {"c16", cmd_c16},
   {NULL, NULL}
 };
 int main(int argc, char **argv) {
